@@ -75,9 +75,20 @@ def make_cases(ctx, n, stream=1):
     cases = []
     for _ in range(n):
         ps, tb, mode = gen_history(rng)
-        h = make_history(ps, tb)
-        ts = gen_times(rng, h.time_breaks)
-        cs = gen_times(rng, h.coalescent_breaks)
+        # the coalescent images of the breaks, computed independently of the code under test (exact, then rounded)
+        starts = [0.0] + tb
+        cb = [float(exact_integral(starts, [2 * Fraction(x) for x in ps], b)) for b in starts]
+        cb = [cb[0]] + [x for a, x in zip(cb[:-1], cb[1:]) if x > a]
+        ts = gen_times(rng, starts)
+        cs = gen_times(rng, cb)
+        try:      # plus the breaks exactly as the class stores them (when it is sane), and their float neighbours
+            stored = np.asarray(make_history(ps, tb).coalescent_breaks, dtype=float)
+            if stored.size == len(starts) and np.all(np.isfinite(stored)) and np.all(stored >= 0):
+                extra = [float(x) for x in stored] + [float(np.nextafter(x, np.inf)) for x in stored] + \
+                        [float(np.nextafter(x, 0.0)) for x in stored[1:]]
+                cs = sorted(set(cs) | set(extra))
+        except Exception:  # noqa: BLE001
+            pass
         cases.append(dict(ps=ps, tb=tb, ts=ts, cs=cs, mode=mode))
     return cases
 
